@@ -50,6 +50,8 @@ def at_rules(ctx, I):
             if k[0] == 'valueof' and 'action' in repr(k[1]):
                 acted = True
                 for fct in facts:
+                    if isinstance(fct[1], tuple) and fct[1][0] == 'str':
+                        DISPATCHED.add(fct[1][1])
                     if fct[0] == 'is':
                         action = fct[1][1]
         writes = [(e[2], live_alts(s, e[3])) for e in s.trace if e[0] == 'write' and e[1] == 'ExcludeRegionState'
@@ -137,6 +139,9 @@ def at_rules(ctx, I):
             ctx.report('C14.R0', where, tag + ' side effects', 'unexpected effects %s' % [e[:2] for e in other][:3])
 
 
+DISPATCHED = set()
+
+
 def consts_rule(ctx):
     m = ctx.model
     init = m.method('AtCommandAction', '__init__')
@@ -148,20 +153,8 @@ def consts_rule(ctx):
                     accepted.add(m.fold('AtCommandAction', elt))
                 except KeyError:
                     accepted.add(ast.unparse(elt))
-    fn = m.method('GcodeHandlers', 'handleAtCommand')
-    dispatched = set()
-    for n in ast.walk(fn):
-        if isinstance(n, ast.Compare) and len(n.ops) == 1 and isinstance(n.ops[0], (ast.Eq, ast.In)):
-            sides = [n.left] + n.comparators
-            if any(isinstance(x, ast.Attribute) and x.attr == 'action' for x in sides):
-                for x in sides:
-                    if isinstance(x, ast.Attribute) and x.attr == 'action':
-                        continue
-                    for y in (x.elts if isinstance(x, (ast.Tuple, ast.List)) else [x]):
-                        try:
-                            dispatched.add(m.fold('GcodeHandlers', y))
-                        except KeyError:
-                            dispatched.add(ast.unparse(y))
+    # the constants the action of a matching entry is compared with, on any abstract path of handleAtCommand
+    dispatched = set(DISPATCHED)
     ctx.instance('C14.R5', (tuple(sorted(accepted)), tuple(sorted(dispatched))))
     if accepted != dispatched or not accepted:
         ctx.report('C14.R5', 'GcodeHandlers.handleAtCommand', 'accepted %s dispatched %s' % (sorted(accepted), sorted(dispatched)),
